@@ -3,6 +3,8 @@
 Not urwid code and never claimed as verified: each function exercises builtins / operators the real
 functions under contract rely on.  pyvc/xcheck.py samples concrete inputs, runs the function in CPython and
 symbolically (inputs equated to the constants) and demands identical results."""
+import typing
+
 
 
 def x_floordiv_mod(a: int, b: int):
@@ -144,3 +146,67 @@ def x_seq_eq(xs: list, ys: list, k: int):
     # == between two lists / two tuples / a list and a tuple (pyvc interp._seq_equals; Signals.disconnect compares
     # the stored (weak_args, user_args) tuples with freshly built ones)
     return (xs == ys, tuple(xs) == tuple(ys), xs == tuple(ys), tuple(xs) == ys, xs[:k] == ys[:k], tuple(xs[:k]) == tuple(ys[:k]))
+class _XPair(typing.NamedTuple):
+    first: int
+    second: int = 5
+
+
+class _XBox(typing.NamedTuple):
+    trim: int
+    pair: _XPair
+    items: list
+
+
+def x_namedtuple(a: int, b: int, items: list):
+    """typing.NamedTuple constructors (positional, keyword, default), unpacking, indexing, field access, len,
+    equality with a plain tuple, a list stored as a component and mutated afterwards (model: builtins_model.NTuple)."""
+    p = _XPair(a, b)
+    q = _XPair(second=a, first=b)
+    d = _XPair(a)
+    box = _XBox(a - b, p, items)
+    items.append(b)
+    trim, (f, s), its = box
+    r = 0
+    for x in box.items:
+        r += x
+    return (p[0], p.second, q.first, q[1], d.second, len(box), trim, f + s, r, p == (a, b), box.pair.first, its is items, len(its))
+class XBox:
+    """Receiver of x_iadd_attr (a plain object with one list field)."""
+
+    def x_iadd_attr(self, v: int):
+        # `obj.attr += [..]` on a list extends the list object in place: the alias taken before sees the new items
+        alias = self.items
+        self.items += [v, v + 1]
+        return (alias is self.items, list(alias), len(alias))
+
+
+def x_iadd_subscript(items: list, v: int):
+    # the same through a subscript target: box[0] += [..] extends the list held in the slot, in place
+    a = list(items)
+    box = (1, 2)
+    holder = [a, box]
+    holder[0] += [v]
+    return (holder[0] is a, list(a), len(holder))
+
+
+def x_minmax_single(a: int):
+    # max / min of a one-element list is that element
+    return (max([a]), min([a]), max([a, a + 1]))
+
+
+def x_max_short_slice(items: list, i: int):
+    # max / min over a slice of a few elements (TermCanvas.sgi_to_attrspec: max(attrs[idx + 2 : idx + 5]) > 255)
+    if 0 <= i and i + 4 < len(items):
+        return (max(items[i + 2 : i + 5]) > 3, min(items[i + 2 : i + 5]), max(items[i : i + 2]) <= 2)
+    return None
+
+
+def x_generator(rows: list, extra: list, k: int, w: int):
+    # a generator run to exhaustion (pyvc: generator_as_list): `yield from`, yield inside a loop over rows of a nested list,
+    # each row handed out as a list that is read, concatenated and sliced (TermCanvas.content)
+    if k == 0:
+        yield from rows
+    else:
+        buf = [*extra, *rows]
+        for row in buf[-(len(rows) + k) : -k]:
+            yield (row + [7] * (w - len(row)))[:w]
